@@ -9,7 +9,7 @@ ASSUMPTIONS = ['"defines link references" is over-approximated syntactically by 
                'parsed with the HtmlRenderer token set (default tokens + HtmlBlock/HtmlSpan)']
 CLOSED = {'Paragraph', 'Heading', 'SetextHeading', 'ThematicBreak', 'Quote', 'Table'}
 BOUNDS = {'quick': (2, 2), 'thorough': (3, 2)}
-L = spaces.LINES + ['<!-- x -->', '> <!-- c', '> ```', '> <?p', '<x-y>', '# h #', '#', '> | a | b |', '> |---|---|', '      ']
+L = spaces.LINES + ['<!-- x -->', '> <!-- c', '> ```', '> <?p', '<x-y>', '# h #', '#', '> | a | b |', '> |---|---|', '      ', '\ufeff# h']
 # B is additionally enumerated to 3 lines over the lines that read or write parser scratch state
 LB3 = ['<div>', '', 'foo', '```', '# h', '> q', '- a', '<!-- x -->', '===', '<x-y>', '-', '#', '      ']
 # family F2: A = X + blank line + closing paragraph (so that any X qualifies as "ending in a closed block"); X holds
